@@ -89,10 +89,10 @@ func (c *netCaller) Call(req Req) (Resp, error) {
 	err := json.Unmarshal(out, &r)
 	return r, err
 }
-func (c *netCaller) Stream(n int) (int, error)   { return 0, errors.New("no streams over net/rpc") }
-func (c *netCaller) Mux() *plugin.MuxBroker      { return c.mux }
-func (c *netCaller) GRPC() *plugin.GRPCBroker    { return nil }
-func (c *netCaller) Ctx() context.Context        { return nil }
+func (c *netCaller) Stream(n int) (int, error) { return 0, errors.New("no streams over net/rpc") }
+func (c *netCaller) Mux() *plugin.MuxBroker    { return c.mux }
+func (c *netCaller) GRPC() *plugin.GRPCBroker  { return nil }
+func (c *netCaller) Ctx() context.Context      { return nil }
 func (p *NetPlugin) Client(b *plugin.MuxBroker, c *rpc.Client) (interface{}, error) {
 	return &netCaller{c: c, mux: b}, nil
 }
